@@ -37,6 +37,26 @@ def table_oracle() -> List[Tuple[str, str, str]]:
     return out
 
 
+def core_names() -> Dict[str, List[str]]:
+    """names defined by the packaged core_defs.yaml, per section (line reader: `section:` / two-space `NAME:`)"""
+    from ..framework import SRC
+    out: Dict[str, List[str]] = {}
+    sec = None
+    try:
+        text = (SRC / "pyrtma" / "core_defs" / "core_defs.yaml").read_text()
+    except OSError:
+        return out
+    for ln in text.splitlines():
+        m = re.match(r"^(\w+):", ln)
+        if m:
+            sec = m.group(1)
+            continue
+        m = re.match(r"^  ([A-Za-z]\w*):", ln)
+        if m and sec:
+            out.setdefault(sec, []).append(m.group(1))
+    return out
+
+
 def per_type_closure(t: str) -> dict:
     items = [("alias", "AT", t),
              ("struct", "S1", F(("x", t, None), ("y", t, ("lit", 3)), ("c", "char", None))),
@@ -70,6 +90,21 @@ def extra_closures(natives: List[str]) -> List[dict]:
     out.append(dict(tag="matlab-prefix-in-name", cl=dict(files=[dict(path="root.yaml", imports=[], items=[
         ("msg", "XMT_Y", 700, F(("a", "int32", None))), ("mid", "AMID_B", 33), ("hid", "CHID_D", 4)])],
         auto_pad=True, import_coredefs=False), coq=False))
+    # user definitions spelled like CORE definitions of another namespace (names read from the packaged core_defs.yaml):
+    # host ids like core module ids / messages, module ids like core host ids / constants / messages / aliases / the
+    # core struct, a constant like a core module id, messages like core host ids.  Legal (separate namespaces); every one
+    # of them must come out in all four outputs, with its value - with and without the core definitions imported.
+    cn = core_names()
+    mids, hids, msgs, consts, als, sts = (cn.get(k, []) for k in ("module_ids", "host_ids", "message_defs", "constants", "aliases", "struct_defs"))
+    if len(mids) >= 3 and len(hids) >= 2 and msgs and consts and als and sts:
+        items = [("hid", mids[0], 11), ("hid", mids[1], 12), ("hid", msgs[0], 13),
+                 ("mid", hids[0], 21), ("mid", consts[0], 22), ("mid", msgs[min(2, len(msgs) - 1)], 23), ("mid", als[0], 24), ("mid", sts[0], 25),
+                 ("const", mids[2], ("lit", 7)),
+                 ("struct", "UserS", F(("a", "int16", ("ref", mids[2])), ("b", "int32", None))),
+                 ("msg", hids[0], 1500, F(("s", "UserS", None), ("c", "uint8", None))), ("msg", hids[1], 1501, None)]
+        for core in (True, False):
+            out.append(dict(tag="core-name-clash:" + ("core-imported" if core else "standalone"),
+                            cl=dict(files=[dict(path="root.yaml", imports=[], items=list(items))], auto_pad=True, import_coredefs=core), coq=False))
     # a name that BEGINS with the section prefix: still stripped by generate_field (kept by 689365a), open finding
     out.append(dict(tag="matlab-leading-prefix-in-name", cl=dict(files=[dict(path="root.yaml", imports=[], items=[
         ("msg", "MT_Y", 701, F(("a", "int32", None))), ("mid", "MID_B", 34), ("hid", "HID_D", 5)])],
